@@ -1316,3 +1316,229 @@ func ruleLimitUsed(c *Ctx, pkgs ...string) {
 	}
 	c.Floor("declared maxima in wire packages", n, 20)
 }
+
+// ---------------------------------------------------------------------------
+// ext-next (C10): the trie is canonical only if no extension node sits directly above another extension (they would
+// have to be merged) or above the empty node. Extensions are created in two places, NewExtensionNode(key, next) and
+// Trie.newSubTrie(path, val, _) (an extension over val when the path is not empty). For every such call in the
+// structural code of package mpt the `next` argument must be known not to be an extension or empty:
+//   - its static type is a concrete leaf or branch (or it is NewLeafNode/NewBranchNode),
+//   - it is the `next` field of an existing extension (the invariant of the node it is taken from),
+//   - the call is guarded by a failed *ExtensionNode assertion / a type switch that took extensions and empty nodes
+//     elsewhere (mergeExtension's default arm, the tail of deleteFromBranch),
+//   - or it is a parameter, and every call site of the enclosing function passes an argument that qualifies
+//     (followed through the module, cycles are closed co-inductively).
+//
+// Anything else - in particular the result of a restructuring call (putBatchInto*, addToBranch, deleteFrom*), which
+// may have collapsed into an extension or into nothing - has to go through mergeExtension.
+func ruleExtNext(c *Ctx) {
+	pk := c.P.Pkg("pkg/core/mpt")
+	if pk == nil {
+		c.Lost("ext-next.anchor", "package mpt not found")
+		return
+	}
+	info := pk.TypesInfo
+	ctorIdx := map[string]int{"pkg/core/mpt.NewExtensionNode": 1, "pkg/core/mpt.(*Trie).newSubTrie": 1}
+	type argRef struct {
+		fd   *FuncDecl
+		call *ast.CallExpr
+		arg  ast.Expr
+	}
+	concreteOK := func(t types.Type) (bool, bool) { // (known, ok)
+		if t == nil {
+			return false, false
+		}
+		if p, ok := t.(*types.Pointer); ok {
+			t = p.Elem()
+		}
+		if nt, ok := t.(*types.Named); ok && nt.Obj().Pkg() != nil && pkgRel(nt.Obj().Pkg()) == "pkg/core/mpt" {
+			switch nt.Obj().Name() {
+			case "LeafNode", "BranchNode":
+				return true, true
+			case "ExtensionNode", "EmptyNode", "HashNode":
+				return true, false
+			}
+		}
+		return false, false
+	}
+	var funcsOfPkg []*FuncDecl
+	for _, fd := range c.P.AllFuncDecls() {
+		if fd.Pkg == pk && fd.Decl.Body != nil {
+			funcsOfPkg = append(funcsOfPkg, fd)
+		}
+	}
+	visiting := map[string]bool{}
+	var qualifies func(r argRef, depth int) (bool, string)
+	qualifies = func(r argRef, depth int) (bool, string) {
+		if depth > 8 {
+			return false, "derivation too deep"
+		}
+		e := ast.Unparen(r.arg)
+		if known, ok := concreteOK(info.TypeOf(e)); known {
+			if ok {
+				return true, ""
+			}
+			return false, "its static type is " + types.TypeString(info.TypeOf(e), nil)
+		}
+		f := c.P.NewFuncCFG(r.fd)
+		switch x := e.(type) {
+		case *ast.CallExpr:
+			switch f.calleeSym(x) {
+			case "pkg/core/mpt.NewLeafNode", "pkg/core/mpt.NewBranchNode":
+				return true, ""
+			}
+			return false, "it is the result of " + trunc(types.ExprString(x.Fun), 50)
+		case *ast.SelectorExpr:
+			if v, ok := info.ObjectOf(x.Sel).(*types.Var); ok && v.IsField() && symOf(v) == "pkg/core/mpt#next" {
+				return true, ""
+			}
+			return false, "it is " + types.ExprString(x)
+		case *ast.Ident:
+			o := info.ObjectOf(x)
+			// guarded by a failed extension assertion / type switch on this variable?
+			for _, st := range f.CallSites(f.calleeSym(r.call)) {
+				if st.call == r.call {
+					if res := f.CheckGate(f.Entry(), map[*cfg.Block]bool{st.blk: true}, Guard{ID: "not-extension", Doc: "extensions were taken elsewhere", Alts: [][]string{{"type:pkg/core/mpt.ExtensionNode"}}}, nil); res.OK {
+						return true, ""
+					}
+				}
+			}
+			// ... or by the arm of a type switch over this variable that does not take extensions while another arm does
+			inSafeArm := false
+			var stack []ast.Node
+			ast.Inspect(r.fd.Decl.Body, func(y ast.Node) bool {
+				if y == nil {
+					stack = stack[:len(stack)-1]
+					return true
+				}
+				stack = append(stack, y)
+				if y != ast.Node(r.call) {
+					return true
+				}
+				for k := len(stack) - 1; k >= 1; k-- {
+					cc, ok := stack[k].(*ast.CaseClause)
+					if !ok {
+						continue
+					}
+					var ts *ast.TypeSwitchStmt
+					for m := k - 1; m >= 0 && ts == nil; m-- {
+						ts, _ = stack[m].(*ast.TypeSwitchStmt)
+					}
+					if ts == nil {
+						continue
+					}
+					var subj ast.Expr
+					switch a := ts.Assign.(type) {
+					case *ast.AssignStmt:
+						if ta, ok := a.Rhs[0].(*ast.TypeAssertExpr); ok {
+							subj = ta.X
+						}
+					case *ast.ExprStmt:
+						if ta, ok := a.X.(*ast.TypeAssertExpr); ok {
+							subj = ta.X
+						}
+					}
+					sid, ok := ast.Unparen(subj).(*ast.Ident)
+					if !ok || info.ObjectOf(sid) != o {
+						continue
+					}
+					lists := func(cl *ast.CaseClause, name string) bool {
+						for _, te := range cl.List {
+							if tv := info.TypeOf(te); tv != nil {
+								t := tv
+								if p, ok := t.(*types.Pointer); ok {
+									t = p.Elem()
+								}
+								if nt, ok := t.(*types.Named); ok && nt.Obj().Name() == name {
+									return true
+								}
+							}
+						}
+						return false
+					}
+					extElsewhere, emptyElsewhere := false, false
+					for _, cl := range ts.Body.List {
+						if cl2 := cl.(*ast.CaseClause); cl2 != cc {
+							extElsewhere = extElsewhere || lists(cl2, "ExtensionNode")
+							emptyElsewhere = emptyElsewhere || lists(cl2, "EmptyNode")
+						}
+					}
+					if extElsewhere && emptyElsewhere && !lists(cc, "ExtensionNode") && !lists(cc, "EmptyNode") && !lists(cc, "HashNode") {
+						inSafeArm = true
+					}
+				}
+				return true
+			})
+			if inSafeArm {
+				return true, ""
+			}
+			// a parameter: all callers must qualify
+			if pi, isParam := f.paramIdx[o]; isParam && pi >= 0 && len(f.defs[o]) == 0 {
+				key := FuncKey(r.fd.Obj) + "#" + fmt.Sprint(pi)
+				if visiting[key] {
+					return true, "" // co-inductive: a cycle adds no new source
+				}
+				visiting[key] = true
+				defer delete(visiting, key)
+				ncall := 0
+				for _, cfd := range funcsOfPkg {
+					cf := c.P.NewFuncCFG(cfd)
+					for _, st := range cf.CallSites(FuncKey(r.fd.Obj)) {
+						if pi >= len(st.call.Args) {
+							continue
+						}
+						ncall++
+						if ok, why := qualifies(argRef{cfd, st.call, st.call.Args[pi]}, depth+1); !ok {
+							return false, fmt.Sprintf("%s passes %s (%s)", FuncKey(cfd.Obj), trunc(types.ExprString(st.call.Args[pi]), 30), why)
+						}
+					}
+				}
+				if ncall == 0 {
+					return false, "a parameter of a function without callers in the package"
+				}
+				return true, ""
+			}
+			// a local: every definition must qualify
+			ds := f.defs[o]
+			if len(ds) == 0 {
+				return false, "a variable without a visible definition"
+			}
+			for _, d := range ds {
+				if len(d.rhs) != 1 {
+					return false, "it comes from a multi-value expression: " + trunc(types.ExprString(d.rhs[0]), 50)
+				}
+				// a multi-value assignment `sub, n, err := f()` has one rhs too: a call whose result is a Node is not known
+				if ok, why := qualifies(argRef{r.fd, r.call, d.rhs[0]}, depth+1); !ok {
+					return false, why
+				}
+			}
+			return true, ""
+		}
+		return false, "it is " + trunc(types.ExprString(e), 40)
+	}
+	n := 0
+	for _, fd := range funcsOfPkg {
+		if fd.Decl.Name.Name == "UnmarshalJSON" || strings.HasPrefix(fd.Decl.Name.Name, "decode") || strings.HasPrefix(fd.Decl.Name.Name, "Decode") {
+			continue // decoders rebuild what the input dictates and are validated by hash
+		}
+		if FuncKey(fd.Obj) == "pkg/core/mpt.(*Trie).newSubTrie" {
+			continue // its own NewExtensionNode call is covered through its callers
+		}
+		f := c.P.NewFuncCFG(fd)
+		for sym, idx := range ctorIdx {
+			for _, st := range f.CallSites(sym) {
+				if idx >= len(st.call.Args) {
+					continue
+				}
+				n++
+				key := fmt.Sprintf("ext-next.%s#%d", FuncKey(fd.Obj), n)
+				if ok, why := qualifies(argRef{fd, st.call, st.call.Args[idx]}, 0); ok {
+					c.OK(key, c.P.Pos(st.call.Pos()), "the node placed under the new extension cannot be an extension or empty")
+				} else {
+					c.Fail(key, c.P.Pos(st.call.Pos()), fmt.Sprintf("%s puts %s under a new extension node, and %s: if it is an extension (or empty) the trie holds an extension above an extension - the same contents as a trie built another way, with a different root; the result of a restructuring step has to go through mergeExtension", FuncKey(fd.Obj), trunc(types.ExprString(st.call.Args[idx]), 30), why))
+				}
+			}
+		}
+	}
+	c.Floor("extension construction sites in the structural code", n, 8)
+}
